@@ -486,12 +486,14 @@ func c07Gen(t *rapid.T) c07Case {
 		}
 	}
 	plant(root, data)
-	// some nodes at the top level get a when that reads an earlier sibling leaf which has a default and holds it (or
+	// (leaves only: the library reads the when of a container from inside that container, where a sibling of the
+	// container is not to be found)
+	// some leaves at the top level get a when that reads an earlier sibling leaf which has a default and holds it (or
 	// is not set): the condition is true, and has to stay true when the request trims that leaf from the answer
 	if rapid.IntRange(0, 2).Draw(t, "whens") == 0 {
 		var operand *dm.Node
 		for _, d := range m.Top {
-			if operand != nil && d.When == "" && (d.Kind == "leaf" || d.Kind == "container") && rapid.Bool().Draw(t, "when-here") {
+			if operand != nil && d.When == "" && d.Kind == "leaf" && rapid.Bool().Draw(t, "when-here") {
 				d.When = operand.Name + " = '" + *operand.Default + "'"
 				if _, has := data[operand.Name]; has {
 					data[operand.Name] = *operand.Default
